@@ -431,13 +431,47 @@ func c20WorldFees(t *testing.T, g *rng) *c20Rich {
 	w.c13FeeIn(apps[1], assets[2], sdk.NewInt(int64(1+g.intn(1000))*1000))
 	w.c13V2CheckStats(apps[1], assets[2])
 	w.c13Bid(g, 2)
+	// a vault being liquidated: its generation-2 dutch auction running with a partial bid; a limit bid waiting
+	dutch := 0
+	{
+		app, out := apps[g.intn(2)], assets[1+g.intn(2)]
+		in := sdk.NewInt(int64(20+g.intn(60)) * 1000000)
+		fresh := addrN(31)
+		fund(t, a, w.ctx, fresh, sdk.NewCoins(sdk.NewCoin(denom[assets[0]], sdk.NewInt(1000000000000))))
+		cl0, err0, _ := execMsg(a, w.ctx, vaulttypes.NewMsgCreateRequest(fresh, app, ep[[2]uint64{app, out}], in, in))
+		if cl0 != "ok" {
+			c20Debug("fees vault to liquidate: %s %v", cl0, err0)
+		}
+		if cl0 == "ok" {
+			vid := a.VaultKeeper.GetIDForVault(w.ctx)
+			setPrice(a, w.ctx, assets[0], 1200000, true)
+			before := a.NewaucKeeper.GetAuctionID(w.ctx)
+			execMsg(a, w.ctx, liqv2types.NewMsgLiquidateInternalKeeperRequest(w.c13Keeper(), 0, vid))
+			if after := a.NewaucKeeper.GetAuctionID(w.ctx); after == before+1 {
+				au, _ := a.NewaucKeeper.GetAuction(w.ctx, after)
+				cl, err, _ := execMsg(a, w.ctx, auctionsV2types.NewMsgPlaceMarketBid(w.c13Bidder().String(), after, sdk.NewCoin(au.DebtToken.Denom, au.DebtToken.Amount.QuoRaw(int64(3+g.intn(3))))))
+				if cl == "ok" {
+					dutch = 1
+				} else {
+					c20Debug("fees partial dutch bid: %s %v", cl, err)
+				}
+			}
+			cl, err, _ := execMsg(a, w.ctx, auctionsV2types.NewMsgDepositLimitBid(w.c13Bidder().String(), assets[0], out, sdk.NewInt(int64(3+g.intn(5))), sdk.NewCoin(denom[out], sdk.NewInt(5000000))))
+			if cl != "ok" {
+				c20Debug("fees limit bid: %s %v", cl, err)
+			}
+			if g.chance(50) {
+				setPrice(a, w.ctx, assets[0], 2000000, true)
+			}
+		}
+	}
 	w.c13Advance(int64(10 + g.intn(80)))
 	v1s, v1d := 0, 0
 	for _, app := range apps {
 		v1s += len(a.AuctionKeeper.GetSurplusAuctions(w.ctx, app))
 		v1d += len(a.AuctionKeeper.GetDebtAuctions(w.ctx, app))
 	}
-	label := fmt.Sprintf("ops=%d lockers=%d vaults=%d v1surplus=%d v1debt=%d v2auctions=%d v2bids=%d", nops, len(a.LockerKeeper.GetLockers(w.ctx)), len(a.VaultKeeper.GetVaults(w.ctx)),
+	label := fmt.Sprintf("ops=%d dutch-partial=%d lockers=%d vaults=%d v1surplus=%d v1debt=%d v2auctions=%d v2bids=%d", nops, dutch, len(a.LockerKeeper.GetLockers(w.ctx)), len(a.VaultKeeper.GetVaults(w.ctx)),
 		v1s, v1d, len(a.NewaucKeeper.GetAuctions(w.ctx)), len(a.NewaucKeeper.GetUserBids(w.ctx)))
 	c20Debug("world fees: %s", label)
 
